@@ -264,10 +264,12 @@ def write_evidence(prop, tier, cls, verif_seed, results, corpus_results, wall, n
     for r in good:
         all_states.update(r.get("states") or [])
     samples = []
-    for r in good:
-        if r.get("ops") and len(samples) < 3:
-            samples.append({"run_index": r["idx"], "seed": r["seed"], "config": r["cfg"],
-                            "ops": r["ops"][:12]})
+    with_ops = [r for r in good if r.get("ops")]
+    picks = [with_ops[0], with_ops[len(with_ops) // 2], with_ops[-1]] if len(with_ops) >= 3 \
+        else with_ops
+    for r in picks:
+        samples.append({"run_index": r["idx"], "seed": r["seed"], "config": r["cfg"],
+                        "ops": r["ops"][:14]})
     if not samples and good:
         samples.append({"run_index": good[0]["idx"], "seed": good[0].get("seed"),
                         "config": good[0]["cfg"]})
